@@ -55,7 +55,7 @@ CHECKS = {
    design="1/C13", engine="E2 hist"),
  "C16": dict(
    level="fault_enumeration",
-   text="(a) round trip of the index of every corpus face and of extreme synthetic footprints; (b) every prefix (crash point) of the written gzip stream, every byte x 255 values of it, and byte/prefix faults of the uncompressed payload re-compressed, for two indexes; (c) the refresh sequence on every crash state of the cache file; (d) explicit-state search over file-system histories (18 operations incl. backward mtimes, renames, symlinks, two fonts installed with one shared time stamp) with a refresh and a persist/reload after each step, deduplicated on (tree listing, persisted index): incremental scan == scan from scratch.",
+   text="(a) round trip of the index of every corpus face and of extreme synthetic footprints; (b) every prefix (crash point) of the written gzip stream, every byte x 255 values of it, and byte/prefix faults of the uncompressed payload re-compressed, for two indexes; (c) the refresh sequence on every crash state of the cache file; (d) explicit-state search over file-system histories (20 operations incl. backward mtimes, renames, symlinks, two fonts installed with one shared time stamp, a WOFF file with a truncated compressed table) with a refresh and a persist/reload after each step, deduplicated on (tree listing, persisted index): incremental scan == scan from scratch.",
    note="refreshSystemFontsIndex is emulated on scratch directories with the same three calls (it reads host font directories otherwise). A corrupted cache that still parses to another index is counted, not judged. Hooks: fontscan.Verif* index entry points.",
    technique="exhaustive crash-point / single-fault enumeration (E4) + explicit-state search over file-system histories on the real scanner (E2)",
    design="1/C16", engine="E4 fault"),
